@@ -3,11 +3,14 @@
 set -e
 cd "$(dirname "$0")/coq"
 mkdir -p gen
+if [ -z "$VERIF_NO_GEN" ]; then /venv/bin/python ../harness/genall.py || true; fi
 {
   echo "-Q theories TF"; echo "-Q gen TFG"; echo "-Q props TFP"
   ls theories/*.v; ls gen/*.v 2>/dev/null || true
 } > _CoqProject
 coq_makefile -f _CoqProject -o Makefile.coq >/dev/null 2>&1
-timeout 2700 make -k -f Makefile.coq -j16 2>&1 | grep -v '^COQDEP\|^COQC\|^CoqMakefile' || true
+# optional arguments: the .vo targets to build (a check builds only what its property needs);
+# without arguments everything is built (setup)
+timeout 2700 make -k -f Makefile.coq -j16 "$@" 2>&1 | grep -v '^COQDEP\|^COQC\|^CoqMakefile' || true
 # make's status (pipefail not set on purpose above): re-run quickly for the status
-timeout 2700 make -k -f Makefile.coq -j16 >/dev/null 2>&1
+timeout 2700 make -k -f Makefile.coq -j16 "$@" >/dev/null 2>&1
